@@ -298,11 +298,16 @@ CLAIMS: dict[str, tuple[str, str, str, str]] = {
         "PARTIAL (engine level FULL): frame — under the rule contracts the block loop, whatever happens inside its blocks "
         "and containers, returns with the line tables, lineMax, blkIndent and level of its entry state (no indentation "
         "bookkeeping leaks into the next block); stages — blocks are emitted with increasing, disjoint line ranges. "
-        "MISSING: the concatenation law itself (prefix/suffix independence; parentType and tight never read stale) is "
-        "decided by the oracle on pairs (A, B) incl. targeted B-blocks whose parse depends on what precedes them. Tie: "
-        "contract monitor on every real rule call + replay of real block loops on the Lean loop.",
+        "The suffix half of the law is a theorem for the modelled sub-parser with block quotes (Props/C07b.lean suffix_shift, "
+        "concat_law; model tied by the qblock differential check): once the top-level loop stands at the first line of a tab-free "
+        "B, n lines into the table — whatever those lines contain, whatever tokens, tight, parentType and hasEmptyLines the earlier "
+        "blocks left behind — it appends exactly the stream of B parsed alone, every map shifted by n (a simulation with a line "
+        "shift through every rule, the terminator chains, the loop and the nested runs, for every rule subset and maxNesting). "
+        "MISSING: the prefix half (that the loop comes to stand at B's first line: look-ahead locality per rule), lists and the "
+        "rules outside the sub-parser; decided by the oracle on pairs (A, B) incl. targeted B-blocks whose parse depends on what "
+        "precedes them. Tie: contract monitor on every real rule call + replay of real block loops on the Lean loop + qblock.",
         NOTE + "Rule contracts assumed by the engine theorems and checked at run time.",
-        "Lean 4 proof (frame invariant of the dispatch loop under rule contracts) + contract monitoring + concatenation oracle",
+        "Lean 4 proof (frame invariant of the dispatch loop under rule contracts; line-shift simulation of the modelled sub-parser) + contract monitoring + concatenation oracle",
         "§6 C07",
     ),
     "C20": (
